@@ -39,8 +39,17 @@ def log(*a):
     print("[pv]", *a, file=sys.stderr, flush=True)
 
 
+def _die_with_parent():
+    """child processes (executor, TLC) are killed when the check that started them dies"""
+    try:
+        import ctypes, signal
+        ctypes.CDLL("libc.so.6").prctl(1, signal.SIGTERM)      # PR_SET_PDEATHSIG (timeout(1) forwards TERM to TLC)
+    except Exception:
+        pass
+
+
 def run(cmd, **kw):
-    return subprocess.run(cmd, stdout=subprocess.PIPE, stderr=subprocess.STDOUT, text=True, **kw)
+    return subprocess.run(cmd, stdout=subprocess.PIPE, stderr=subprocess.STDOUT, text=True, preexec_fn=_die_with_parent, **kw)
 
 
 # ---------------------------------------------------------------------------------------------
@@ -125,7 +134,7 @@ def run_mc_step(tag, instrs, pools, workdir, workers=8, timeout=1800):
     with open(outp, "w") as fo:
         r = subprocess.run(["timeout", str(timeout), "tlc", "-workers", str(workers), "-config", cfg,
                             "-metadir", os.path.join(workdir, "states_" + mod), "-cleanup", "-noGenerateSpecTE",
-                            mod + ".tla"], cwd=MC, stdout=fo, stderr=subprocess.STDOUT, env=tlc_env())
+                            mod + ".tla"], cwd=MC, stdout=fo, stderr=subprocess.STDOUT, env=tlc_env(), preexec_fn=_die_with_parent)
     try:
         os.remove(os.path.join(MC, mod + ".tla"))
     except OSError:
@@ -162,7 +171,7 @@ def run_tlc_model(mod, cfg_text, workdir, workers=8, timeout=1800, tag=None):
     with open(outp, "w") as fo:
         subprocess.run(["timeout", str(timeout), "tlc", "-workers", str(workers), "-config", cfg,
                         "-metadir", os.path.join(workdir, "states_" + tag), "-cleanup", "-noGenerateSpecTE",
-                        mod + ".tla"], cwd=MC, stdout=fo, stderr=subprocess.STDOUT, env=tlc_env())
+                        mod + ".tla"], cwd=MC, stdout=fo, stderr=subprocess.STDOUT, env=tlc_env(), preexec_fn=_die_with_parent)
     shutil.rmtree(os.path.join(workdir, "states_" + tag), ignore_errors=True)
     cases, tail, ok = [], [], False
     with open(outp) as f:
@@ -246,7 +255,7 @@ def exec_cases(cases_path, events_path, profile="dev", mem_kb=4 * 1024 * 1024, t
         if os.path.exists(prog):
             os.remove(prog)
         p = subprocess.Popen(["bash", "-c", "ulimit -v %d; ulimit -s 65536; exec %s %s %s %d" % (mem_kb, exe, cases_path, events_path, start)],
-                             stdout=subprocess.DEVNULL, stderr=subprocess.PIPE, env=dict(os.environ, **(env or {})))
+                             stdout=subprocess.DEVNULL, stderr=subprocess.PIPE, env=dict(os.environ, **(env or {})), preexec_fn=_die_with_parent)
         # a case hangs when the process has burnt timeout_case seconds of CPU time on it (a busy machine does not
         # make a case hang), or made no progress for 10 x timeout_case seconds of wall-clock time (sleeping hang)
         last = (None, time.time(), _cpu_seconds(p.pid))
